@@ -27,6 +27,10 @@ Generated
   - a subset of the Z80 table (vf/isa/z80.py, taken over by name) restricted to instructions the
     Rabbit 2000 has with an unchanged opcode
 
+Defects of the pinned tree found with this table (repaired on branch agent/isaBA, proposed/C14/r2000-*.md):
+ALTD in front of most instructions lost the prefix or mis-decoded the instruction; EX (SP),HL was E3;
+ADD SP,d accepted +128..+255.
+
 Not generated
   - Z80 instructions the Rabbit 2000 does not have (HALT DAA DI EI IM IN OUT, block I/O, CPI/CPD/CPIR/
     CPDR, RLD RRD RETN, CALL cc, RST 0/8/30h, LD A,I / LD A,R under these names): AS still accepts them
